@@ -94,7 +94,7 @@ class N:
         self.kind, self.name, self.attrs, self.kids, self.data = kind, name, attrs or [], kids or [], data
 
     def ser(self):
-        a = "".join(f' {k}="{v}"' for k, v in self.attrs)
+        a = "".join(f" {k}" if v is None else f' {k}="{v}"' for k, v in self.attrs)  # None: a valueless (boolean) attribute
         k = self.kind
         if k == "tag":
             return f"<{self.name}{a}>" + "".join(c.ser() for c in self.kids) + f"</{self.name}>"
@@ -131,7 +131,10 @@ def gen_attrs(R, entity_class=False):
     n = R.choice([0, 0, 1, 2, 3])
     names = R.sample(ATTR_NAMES, n)
     vals = ATTR_VALUES + (["?a&amp;b", "&lt;x", "&#65;"] if entity_class else [])
-    return [(k, R.choice(vals)) for k in names]
+    out = [(k, R.choice(vals)) for k in names]
+    if R.random() < 0.15:
+        out.insert(R.randint(0, len(out)), (R.choice(["disabled", "hidden", "checked", "data-flag"]), None))
+    return out
 
 
 def gen_node(R, d, entity_class=False):
@@ -363,13 +366,13 @@ def eval_wf(ctx, case, forest=None):
     queries = []
     for name in sorted({n.name for n in model})[:4] + ["nosuch"]:
         queries.append(("name", name, [i for i, n in enumerate(model) if n.name == name]))
-    allc = sorted({c for n in model for k, v in n.attrs if k == "class" for c in v.split()})
+    allc = sorted({c for n in model for k, v in n.attrs if k == "class" for c in (v or "").split()})
     for c in allc[:4] + ["nosuch"]:
-        queries.append(("class", c, [i for i, n in enumerate(model) if c in dict(n.attrs).get("class", "").split()]))
+        queries.append(("class", c, [i for i, n in enumerate(model) if c in (dict(n.attrs).get("class") or "").split()]))
     if len(allc) >= 2:
         pair = allc[:2]
-        queries.append(("classes", pair, [i for i, n in enumerate(model) if set(pair) <= set(dict(n.attrs).get("class", "").split())]))
-    for k, v in sorted({(k, v) for n in model for k, v in n.attrs})[:4]:
+        queries.append(("classes", pair, [i for i, n in enumerate(model) if set(pair) <= set((dict(n.attrs).get("class") or "").split())]))
+    for k, v in sorted({(k, v) for n in model for k, v in n.attrs if v is not None})[:4]:
         queries.append(("attr", [k, v], [i for i, n in enumerate(model) if dict(n.attrs).get(k, "") == v]))
     for kn, cls in kinds.items():
         queries.append(("type", kn, [i for i, n in enumerate(model) if n.kind == kn]))
